@@ -371,7 +371,7 @@ Fixpoint line_comment (s : inp) (acc : inp) : option (inp * inp) :=
   match s with
   | [] => None
   | c :: r => if c =? 10
-              then Some (match acc with 13 :: a => rev a | _ => rev acc end, r)
+              then Some (match acc with a :: acc' => if a =? 13 then rev acc' else rev acc | [] => [] end, r)
               else line_comment r (c :: acc)
   end.
 
